@@ -68,6 +68,12 @@ def codeNum (base : Nat) (ds : List Nat) : Nat := ds.foldl (fun acc d => acc * b
 
 def floatOfBits (b : Nat) : Float := Float.ofBits (UInt64.ofNat b)
 
+/-- A positive power of two `2^e`, `|e| ≤ 200` (bit pattern: zero mantissa): multiplying
+integer weights below 2^53 by it is exact and keeps every partial sum exact (same rule in
+the harness: `pow2_scale`). -/
+def pow2Scale (bits : Nat) : Bool :=
+  bits % 2 ^ 52 = 0 && 823 ≤ bits / 2 ^ 52 && bits / 2 ^ 52 ≤ 1223
+
 /-- `HilbertCurve::partition`: MAX_ORDER check, empty early return, then `partition_indexed`. -/
 def hilbertHead (dim order parts n : Nat) : Option String :=
   if order > (if dim = 2 then 32 else 21) then some "err invalid-order"
@@ -132,6 +138,47 @@ def handle (toks : List String) : String :=
       if idxs.isEmpty then "panic called `Option::unwrap()` on a `None` value"
       else hilbertOut parts idxs (wbits.map floatOfBits) (exactWeights wbits)
         (post.bind (fun p => parsePositions p 0))
+  | some "wqs" =>
+    -- `wqs <pool> <parts> <n> <scale> <idx…> <w…> [=> <m> <pos…>]`: `wq` with the weights multiplied
+    -- by `scale` (one f64 multiplication each, as in the harness)
+    match (do
+      let _ ← natAt pre 1
+      let parts ← natAt pre 2
+      let n ← natAt pre 3
+      let scale ← (pre[4]?).bind parseHex?
+      let (idxs, j) ← takeArr parseNat? pre n 5 #[]
+      let (wbits, j) ← takeArr parseHex? pre n j #[]
+      if j = pre.size then some (parts, scale, idxs.toList, wbits.toList) else none) with
+    | none => "bad-op"
+    | some (parts, scale, idxs, wbits) =>
+      if idxs.isEmpty then "panic called `Option::unwrap()` on a `None` value"
+      else hilbertOut parts idxs (wbits.map (fun b => floatOfBits b * floatOfBits scale))
+        (exactWeights wbits && pow2Scale scale) (post.bind (fun p => parsePositions p 0))
+  | some "hils" =>
+    -- `hils <dim> <pool> <order> <parts> <n> <scale> <coords…> <w…> [=> <idx…> <m> <pos…>]`
+    match (do
+      let dim ← natAt pre 1
+      let _ ← natAt pre 2
+      let order ← natAt pre 3
+      let parts ← natAt pre 4
+      let n ← natAt pre 5
+      let scale ← (pre[6]?).bind parseHex?
+      let (_, j) ← takeArr parseHex? pre (n * dim) 7 #[]
+      let (wbits, j) ← takeArr parseHex? pre n j #[]
+      if j = pre.size ∧ (dim = 2 ∨ dim = 3) then some (dim, order, parts, n, scale, wbits.toList) else none) with
+    | none => "bad-op"
+    | some (dim, order, parts, n, scale, wbits) =>
+      match hilbertHead dim order parts n with
+      | some out => out
+      | none =>
+        match post with
+        | none => "bad-op"
+        | some post =>
+          match takeArr parseNat? post n 0 #[] with
+          | none => "bad-op"
+          | some (idxs, j) =>
+            hilbertOut parts idxs.toList (wbits.map (fun b => floatOfBits b * floatOfBits scale))
+              (exactWeights wbits && pow2Scale scale) (parsePositions post j)
   | some "hil" =>
     match (do
       let dim ← natAt pre 1
